@@ -62,8 +62,14 @@ def gen_where(rng, graphs):
         return ["group", [["bgp", [[v("s"), c(rng.choice(PR)), v("o")]]], ["bind", ["+", v("o"), c(Literal(1))], "n"]]]
     if k < 0.65 and graphs:
         return ["group", [["graph", v("g") if rng.random() < 0.5 else c(rng.choice(graphs)), ["group", [["bgp", [[v("s"), v("p"), v("o")]]]]]]]]
-    if k < 0.75:
+    if k < 0.72:
         return ["group", [["bgp", [[v("s"), c(PR[0]), v("o")]]], ["optional", ["group", [["bgp", [[v("s"), c(PR[1]), v("n")]]]]]]]]
+    if k < 0.78:
+        # a chain: the OPTIONAL part of one solution matches triples that the templates of another solution touch
+        p1, p2 = rng.choice(PR), rng.choice(PR)
+        if rng.random() < 0.5:
+            return ["group", [["bgp", [[v("s"), c(p1), v("o")]]], ["optional", ["group", [["bgp", [[v("o"), c(p1), v("z")], [v("z"), c(p2), v("m")]]]]]]]]
+        return ["group", [["bgp", [[v("s"), c(p1), v("o")]]], ["optional", ["group", [["bgp", [[v("o"), c(p2), v("n")]]]]]]]]
     for _ in range(20):
         w = Q.Gen(rng, dataset=False).group()
         if not Q.pushdown_triggers(w): return w
@@ -95,6 +101,14 @@ def gen_op(rng, graphs, multi):
         if rng.random() < 0.25 and vars_ == ["n", "o", "s"]:
             # what one solution inserts another one deletes
             dele = [[None, [v("s"), where[1][0][1][0][1], v("o")]]]; ins = [[None, [v("s"), where[1][0][1][0][1], v("n")]]]
+        if vars_ == ["n", "o", "s"] and where[1][1][0] == "optional" and where[1][1][1][1][0][1][0][0] == ["var", "o"] and rng.random() < 0.7:
+            # chain shape: delete (also) what the OPTIONAL part matched; the pattern must still be evaluated once, on the state before any deletion
+            dele = [[None, [v("o"), where[1][1][1][1][0][1][0][1], v("n")]]] + ([[None, [v("s"), where[1][0][1][0][1], v("o")]]] if rng.random() < 0.6 else [])
+            if rng.random() < 0.6: ins = None
+        if vars_ == ["m", "o", "s", "z"] and rng.random() < 0.8:
+            # deleting ?s p ?o for one solution removes the first step of another solution's OPTIONAL part; ?z p2 ?m is only reachable through it
+            dele = [[None, [v("s"), where[1][0][1][0][1], v("o")]], [None, [v("z"), where[1][1][1][1][0][1][1][1], v("m")]]]
+            if rng.random() < 0.7: ins = None
         if rng.random() < 0.1 and {"s", "p", "o"} <= set(vars_):
             dele = [[None, [v("s"), v("p"), v("o")]]]; ins = [[None, [v("o"), v("p"), v("s")]]]   # swap: literal subjects must be skipped
         return ["modify", enc(with_) if with_ else None, dele, ins, [enc(u) for u in using], where]
